@@ -1,12 +1,61 @@
 // C37 harnesses.  This text is compiled as the child module `id_set::u15` of the
 // module whose body is the real utils/src/id_set.rs (include!), so private fields of
-// IdSet / Ptr are visible.  T = u8, histories of at most MAXH inserts + the operation
-// under test (bounded).  Model: insertion-ordered vector of distinct values.
+// IdSet / Ptr are visible.
+//
+// Bounded: T = u8.  IdSet<T> uses T only through Eq/Hash (and the map stub R5 ignores the
+// hash value), so its behaviour on a history of inserts depends only on the EQUALITY
+// PATTERN of the inserted values.  The harnesses enumerate every equality pattern
+// (restricted-growth string) of histories of up to 3 inserts (quick: H3, 9 histories
+// incl. the empty one) or up to 4 inserts (thorough: H4, 24 histories) with concrete
+// representative values, then apply the operation under test; queried values and ids
+// are symbolic where that is affordable.  Concrete shapes are required because CBMC
+// needs > 4 GB as soon as the buffer-switching structure becomes symbolic.
+//
+// Model (C37: "a map-plus-vector model"): the insertion-ordered vector of distinct
+// values; id = position.
 use super::*;
 
-const MAXH: usize = 3;
+const VALS: [u8; 4] = [7, 200, 31, 8];
 
-/// the map-plus-vector model of C37: ids are positions in `v[..n]`, values distinct
+const H3: &[&[u8]] = &[
+    &[],
+    &[0],
+    &[0, 0],
+    &[0, 1],
+    &[0, 0, 0],
+    &[0, 0, 1],
+    &[0, 1, 0],
+    &[0, 1, 1],
+    &[0, 1, 2],
+];
+
+const H4: &[&[u8]] = &[
+    &[],
+    &[0],
+    &[0, 0],
+    &[0, 1],
+    &[0, 0, 0],
+    &[0, 0, 1],
+    &[0, 1, 0],
+    &[0, 1, 1],
+    &[0, 1, 2],
+    &[0, 0, 0, 0],
+    &[0, 0, 0, 1],
+    &[0, 0, 1, 0],
+    &[0, 0, 1, 1],
+    &[0, 0, 1, 2],
+    &[0, 1, 0, 0],
+    &[0, 1, 0, 1],
+    &[0, 1, 0, 2],
+    &[0, 1, 1, 0],
+    &[0, 1, 1, 1],
+    &[0, 1, 1, 2],
+    &[0, 1, 2, 0],
+    &[0, 1, 2, 1],
+    &[0, 1, 2, 2],
+    &[0, 1, 2, 3],
+];
+
 struct Model {
     v: [u8; 6],
     n: usize,
@@ -39,14 +88,9 @@ impl Model {
 }
 
 fn in_buf(p: *const u8, b: &Vec<u8>) -> bool {
-    let mut i = 0;
-    while i < b.len() {
-        if std::ptr::eq(p, &b[i]) {
-            return true;
-        }
-        i += 1;
-    }
-    false
+    let a = p as usize;
+    let lo = b.as_ptr() as usize;
+    b.len() > 0 && a >= lo && a < lo + b.len()
 }
 
 /// `p` points at a live element of one of THIS set's buffers
@@ -64,7 +108,7 @@ fn owned(s: &IdSet<u8>, p: *const u8) -> bool {
     false
 }
 
-/// representation invariant wf(s) + agreement with the model
+/// representation invariant wf(s) and agreement with the model, by id and by value
 fn check(s: &IdSet<u8>, m: &Model) {
     assert!(s.map.len() == m.n, "wf: map.len() == number of distinct values inserted");
     assert!(s.id_to_ptr.len() == m.n, "wf: id_to_ptr.len() == map.len()");
@@ -82,7 +126,6 @@ fn check(s: &IdSet<u8>, m: &Model) {
         assert!(k.0 == s.id_to_ptr[id as usize], "wf: a map key is the interned pointer of its id");
         j += 1;
     }
-    // lookups by value and by id agree (public API)
     let mut i = 0;
     while i < m.n {
         assert!(s.try_get_id(&m.v[i]) == Some(i as u32), "model: try_get_id(value of id i) == Some(i)");
@@ -92,142 +135,101 @@ fn check(s: &IdSet<u8>, m: &Model) {
     assert!(s.len() == m.n, "model: len");
 }
 
-/// symbolic history: n <= MAXH inserts of symbolic values
-fn history() -> (IdSet<u8>, Model) {
-    let n: usize = kani::any();
-    kani::assume(n <= MAXH);
+/// run one history; every insert's returned id is compared with the model
+fn hist(pat: &[u8]) -> (IdSet<u8>, Model) {
     let mut s: IdSet<u8> = IdSet::new();
     let mut m = Model::new();
     let mut j = 0;
-    while j < MAXH {
-        if j < n {
-            let x: u8 = kani::any();
-            s.insert(x);
-            m.insert(x);
-        }
+    while j < pat.len() {
+        let x = VALS[pat[j] as usize];
+        s.insert(x);
+        m.insert(x);
         j += 1;
     }
     (s, m)
 }
 
-#[kani::proof]
-#[kani::unwind(8)]
-fn op_new() {
-    let s: IdSet<u8> = IdSet::new();
-    let m = Model::new();
+// ------------------------------------------------------------------ operation bodies
+
+fn body_insert(pat: &[u8]) {
+    // the history itself is the operation under test: check after every step
+    let mut s: IdSet<u8> = IdSet::new();
+    let mut m = Model::new();
     check(&s, &m);
-    assert!(s.is_empty());
-    assert!(s.iter().next().is_none());
-    let d: IdSet<u8> = IdSet::default();
-    check(&d, &m);
-    kani::cover!(true, "reachable");
+    let mut j = 0;
+    while j < pat.len() {
+        let x = VALS[pat[j] as usize];
+        let was = m.pos(x);
+        let id = s.insert(x);
+        match was {
+            Some(old) => assert!(id == old, "model: re-inserting a value returns its stable id"),
+            None => assert!(id as usize == m.n, "model: a new value gets the next id, in insertion order"),
+        }
+        m.insert(x);
+        check(&s, &m);
+        j += 1;
+    }
 }
 
-#[kani::proof]
-#[kani::unwind(8)]
-fn op_insert_new() {
-    let (mut s, mut m) = history();
-    check(&s, &m);
+fn body_try_get_id(pat: &[u8]) {
+    let (s, m) = hist(pat);
     let x: u8 = kani::any();
-    kani::assume(m.pos(x).is_none());
-    let id = s.insert(x);
-    assert!(id as usize == m.n, "model: a new value gets the next id, in insertion order");
-    assert!(id == m.insert(x));
+    assert!(s.try_get_id(&x) == m.pos(x), "model: try_get_id agrees with the position in the model (any u8)");
     check(&s, &m);
-    kani::cover!(m.n == MAXH + 1, "reachable: MAXH+1 distinct values (two buffer switches)");
-    kani::cover!(m.n == 1, "reachable: first insert");
 }
 
-#[kani::proof]
-#[kani::unwind(8)]
-fn op_insert_dup() {
-    let (mut s, mut m) = history();
+fn body_get_id(pat: &[u8]) {
+    let (s, m) = hist(pat);
     let x: u8 = kani::any();
-    let want = m.pos(x);
-    kani::assume(want.is_some());
-    let id = s.insert(x);
-    assert!(Some(id) == want, "model: re-inserting a value returns its stable id");
+    if m.pos(x).is_some() {
+        // documented: panics when absent
+        assert!(Some(s.get_id(&x)) == m.pos(x), "model: get_id agrees with the position in the model");
+    }
     check(&s, &m);
-    kani::cover!(m.n == MAXH && id == 0, "reachable: dup of first value in a full history");
-    kani::cover!(m.n == 2 && id == 1, "reachable: dup insert while current_buf is full (buffer switch + pop)");
 }
 
-#[kani::proof]
-#[kani::unwind(8)]
-fn op_try_get_id() {
-    let (s, m) = history();
+fn body_index(pat: &[u8]) {
+    let (mut s, m) = hist(pat);
+    let mut i = 0;
+    while i < m.n {
+        assert!(s[i as u32] == m.v[i], "model: Index by id returns the i-th distinct value");
+        let r: &mut u8 = &mut s[i as u32];
+        assert!(*r == m.v[i], "model: IndexMut by id designates the same element");
+        i += 1;
+    }
+    check(&s, &m);
+}
+
+fn body_contains(pat: &[u8]) {
+    let (s, m) = hist(pat);
     let x: u8 = kani::any();
-    assert!(s.try_get_id(&x) == m.pos(x), "model: try_get_id agrees with position in the model");
+    assert!(s.contains(&x) == m.pos(x).is_some(), "model: contains (any u8)");
     check(&s, &m);
-    kani::cover!(m.pos(x).is_some(), "reachable: present");
-    kani::cover!(m.pos(x).is_none() && m.n == MAXH, "reachable: absent");
 }
 
-#[kani::proof]
-#[kani::unwind(8)]
-fn op_get_id() {
-    let (s, m) = history();
-    let x: u8 = kani::any();
-    kani::assume(m.pos(x).is_some()); // documented: panics when absent
-    assert!(Some(s.get_id(&x)) == m.pos(x), "model: get_id agrees with position in the model");
-    check(&s, &m);
-    kani::cover!(m.n == MAXH, "reachable");
-}
-
-#[kani::proof]
-#[kani::unwind(8)]
-fn op_index() {
-    let (mut s, m) = history();
-    let i: u32 = kani::any();
-    kani::assume((i as usize) < m.n);
-    assert!(s[i] == m.v[i as usize], "model: Index by id returns the i-th distinct value");
-    let r: &mut u8 = &mut s[i];
-    assert!(*r == m.v[i as usize], "model: IndexMut by id designates the same element");
-    check(&s, &m);
-    kani::cover!(m.n == MAXH && i == 2, "reachable");
-}
-
-#[kani::proof]
-#[kani::unwind(8)]
-fn op_contains() {
-    let (s, m) = history();
-    let x: u8 = kani::any();
-    assert!(s.contains(&x) == m.pos(x).is_some(), "model: contains");
-    check(&s, &m);
-    kani::cover!(s.contains(&x), "reachable: present");
-    kani::cover!(!s.contains(&x) && m.n == MAXH, "reachable: absent");
-}
-
-#[kani::proof]
-#[kani::unwind(8)]
-fn op_len() {
-    let (s, m) = history();
+fn body_len(pat: &[u8]) {
+    let (s, m) = hist(pat);
     assert!(s.len() == m.n, "model: len == number of distinct values");
     assert!(s.is_empty() == (m.n == 0), "model: is_empty");
     check(&s, &m);
-    kani::cover!(m.n == MAXH, "reachable");
 }
 
-#[kani::proof]
-#[kani::unwind(8)]
-fn op_clear() {
-    let (mut s, _m) = history();
+fn body_clear(pat: &[u8]) {
+    let (mut s, _m) = hist(pat);
     s.clear();
     let mut m = Model::new();
     check(&s, &m);
     assert!(s.iter().next().is_none(), "model: iteration after clear is empty");
     // ids restart and the set is usable
-    let x: u8 = kani::any();
-    let id = s.insert(x);
-    assert!(id == m.insert(x), "model: first id after clear is 0");
+    let id = s.insert(VALS[1]);
+    assert!(id == m.insert(VALS[1]), "model: first id after clear is 0");
+    let id = s.insert(VALS[0]);
+    assert!(id == m.insert(VALS[0]), "model: second id after clear is 1");
     check(&s, &m);
-    kani::cover!(true, "reachable");
 }
 
-#[kani::proof]
-#[kani::unwind(8)]
-fn op_iter() {
-    let (s, m) = history();
+fn body_iter(pat: &[u8]) {
+    let (s, m) = hist(pat);
     let mut it = s.iter();
     let mut i = 0;
     while i < m.n {
@@ -235,20 +237,21 @@ fn op_iter() {
         i += 1;
     }
     assert!(it.next().is_none(), "model: iter yields exactly len values");
-    let mut k = 0;
-    for r in &s {
-        assert!(*r == m.v[k], "model: IntoIterator for &IdSet is in id order");
-        k += 1;
-    }
-    assert!(k == m.n);
     check(&s, &m);
-    kani::cover!(m.n == MAXH, "reachable");
 }
 
-#[kani::proof]
-#[kani::unwind(8)]
-fn op_into_iter() {
-    let (s, m) = history();
+fn body_ref_into_iter(pat: &[u8]) {
+    let (s, m) = hist(pat);
+    let mut k = 0;
+    for r in &s {
+        assert!(k < m.n && *r == m.v[k], "model: IntoIterator for &IdSet is in id order");
+        k += 1;
+    }
+    assert!(k == m.n, "model: IntoIterator for &IdSet yields exactly len values");
+}
+
+fn body_into_iter(pat: &[u8]) {
+    let (s, m) = hist(pat);
     let mut it = s.into_iter();
     let mut i = 0;
     while i < m.n {
@@ -256,47 +259,102 @@ fn op_into_iter() {
         i += 1;
     }
     assert!(it.next().is_none(), "model: into_iter yields exactly len values");
-    kani::cover!(m.n == MAXH, "reachable");
 }
 
-#[kani::proof]
-#[kani::unwind(8)]
-fn op_clone() {
-    let (s, m) = history();
+fn body_clone(pat: &[u8]) {
+    let (s, m) = hist(pat);
     let mut c = s.clone();
     check(&c, &m); // the clone is wf ON ITS OWN buffers and equals the model
     check(&s, &m); // the original is unchanged
     // the two evolve independently
-    let x: u8 = kani::any();
     let mut mc = Model { v: m.v, n: m.n };
-    let id = c.insert(x);
-    assert!(id == mc.insert(x), "model: insert into the clone");
+    let id = c.insert(VALS[3]);
+    assert!(id == mc.insert(VALS[3]), "model: insert into the clone");
     check(&c, &mc);
     check(&s, &m);
-    kani::cover!(m.n == MAXH, "reachable");
-    kani::cover!(mc.n == m.n + 1 && m.n >= 1, "reachable: clone grew");
+}
+
+fn body_clone_drop(pat: &[u8]) {
+    let (s, m) = hist(pat);
+    let c = s.clone();
+    drop(s);
+    // every read through the clone must touch live memory owned by the clone
+    let mut i = 0;
+    while i < m.n {
+        assert!(c[i as u32] == m.v[i], "clone independent: Index after the original was dropped");
+        i += 1;
+    }
+    check(&c, &m);
+}
+
+fn body_clone_clear(pat: &[u8]) {
+    let (mut s, m) = hist(pat);
+    let mut c = s.clone();
+    s.clear();
+    s.insert(0xEE); // reuse of the original must not disturb the clone either
+    let mut i = 0;
+    while i < m.n {
+        assert!(c[i as u32] == m.v[i], "clone independent: Index after the original was cleared");
+        i += 1;
+    }
+    check(&c, &m);
+    let mut mc = Model { v: m.v, n: m.n };
+    let id = c.insert(VALS[3]);
+    assert!(id == mc.insert(VALS[3]), "clone independent: insert into the clone after the original was cleared");
+    check(&c, &mc);
+}
+
+// ------------------------------------------------------------------ harnesses
+
+macro_rules! over_histories {
+    ($quick:ident, $thorough:ident, $($body:ident),+) => {
+        #[kani::proof]
+        #[kani::unwind(12)]
+        fn $quick() {
+            let mut h = 0;
+            while h < H3.len() {
+                $($body(H3[h]);)+
+                h += 1;
+            }
+            kani::cover!(true, "reachable: all histories of <= 3 inserts executed");
+        }
+
+        #[kani::proof]
+        #[kani::unwind(12)]
+        fn $thorough() {
+            let mut h = 0;
+            while h < H4.len() {
+                $($body(H4[h]);)+
+                h += 1;
+            }
+            kani::cover!(true, "reachable: all histories of <= 4 inserts executed");
+        }
+    };
 }
 
 #[kani::proof]
-#[kani::unwind(8)]
-fn clone_independent() {
-    let (mut s, m) = history();
-    kani::assume(m.n >= 1);
-    let c = s.clone();
-    let drop_it: bool = kani::any();
-    if drop_it {
-        drop(s);
-    } else {
-        s.clear();
-        // reuse of the original after clear must not disturb the clone either
-        s.insert(0xEE);
-    }
-    // every read through the clone must touch live memory owned by the clone
-    let i: u32 = kani::any();
-    kani::assume((i as usize) < m.n);
-    assert!(c[i] == m.v[i as usize], "clone independent: Index after the original is gone");
-    assert!(c.try_get_id(&m.v[i as usize]) == Some(i), "clone independent: lookup by value after the original is gone");
-    check(&c, &m);
-    kani::cover!(drop_it && m.n == MAXH, "reachable: dropped original");
-    kani::cover!(!drop_it && m.n == MAXH, "reachable: cleared original");
+#[kani::unwind(12)]
+fn op_new() {
+    let s: IdSet<u8> = IdSet::new();
+    let m = Model::new();
+    check(&s, &m);
+    assert!(s.is_empty(), "model: a new set is empty");
+    assert!(s.iter().next().is_none(), "model: a new set iterates over nothing");
+    let x: u8 = kani::any();
+    assert!(s.try_get_id(&x).is_none() && !s.contains(&x), "model: a new set contains nothing");
+    let d: IdSet<u8> = IdSet::default();
+    check(&d, &m);
+    kani::cover!(true, "reachable");
 }
+
+over_histories!(op_insert, op_insert_h4, body_insert);
+over_histories!(op_try_get_id, op_try_get_id_h4, body_try_get_id);
+over_histories!(op_get_id, op_get_id_h4, body_get_id);
+over_histories!(op_index, op_index_h4, body_index);
+over_histories!(op_contains, op_contains_h4, body_contains);
+over_histories!(op_len, op_len_h4, body_len);
+over_histories!(op_clear, op_clear_h4, body_clear);
+over_histories!(op_iter, op_iter_h4, body_iter, body_ref_into_iter);
+over_histories!(op_into_iter, op_into_iter_h4, body_into_iter);
+over_histories!(op_clone, op_clone_h4, body_clone);
+over_histories!(clone_independent, clone_independent_h4, body_clone_drop, body_clone_clear);
